@@ -34,7 +34,7 @@ K2_FLAGS = {1: "tie:Dash-cuts-vs-model", 2: "prop:cut-positions-differ-from-patt
 K2_PROP = 2 | 4 | 8 | 16 | 32
 K2_TIE = 1 | 64 | 128
 K3_FLAGS = {1: "prop:curved-piece-not-a-subcurve", 2: "prop:curved-pieces-out-of-order", 4: "prop:curved-piece-count-differs",
-            8: "prop:curved-piece-length-differs(enclosure+-1%)", 32: "prop:panic"}
+            8: "prop:curved-cut-not-at-prescribed-arc-length(enclosure+-1%)", 32: "prop:panic"}
 K3_PROP = 1 | 2 | 4 | 8 | 32
 KNOWN_PANIC = "theta not in elliptic arc range for splitting"   # recorded under C10/C13
 
@@ -104,6 +104,26 @@ def run(ctx):
         c = t[0]
         return (len(c["desc"]["dashes"] or []), len(c["desc"].get("path", "")), abs(c["desc"]["offset"]))
 
+    # known findings (known_findings.json): exact triggers only
+    known = {f["key"]: f for f in vlib.known_findings("C05") if f.get("status") == "open"}
+    kkey = "arclength-inversion-accuracy-beyond-one-percent"
+    rest, nknown, worst = [], 0, (None, 0)
+    for t in prop_fail:
+        c, fl, names, pm = t
+        row = rows[cases.index(c)]
+        # accuracy only: every piece is a certified sub-curve of the input, pieces in order, count as prescribed (flags 1, 2, 4 clear),
+        # and the worst cut is at most 40/1000 of the path length outside the enclosure of its prescribed position
+        if kkey in known and c["desc"]["kind"] == "K3" and fl & pm == 8 and 0 <= row[2] <= 40:
+            nknown += 1
+            if row[2] >= worst[1]:
+                worst = (c, row[2])
+        else:
+            rest.append(t)
+    if nknown:
+        c = worst[0]
+        ctx.known_finding("%s (%d cases this run; worst: a cut %d/1000 of the path length from its prescribed arc length on %s offset=%s dashes=%s)" % (
+            known[kkey]["what"], nknown, worst[1], c["desc"].get("path"), c["desc"]["offset"], c["desc"]["dashes"]))
+    prop_fail = rest
     # one violation per distinct set of property flags, smallest input first
     prop_fail.sort(key=size)
     seen = set()
@@ -131,7 +151,7 @@ def run(ctx):
                                             "Path.SplitAt / Path.Length / Path.Join are not modelled: their effect is judged on Dash's output (K2, straight-line paths only)"]),
         evaluations=len(cases), distinct_nontrivial=len(nontrivial), distinct=len(distinct),
         rule="one evaluation = one (path, offset, dash array) run through the Go code (dashCanonical, dashStart, Context.DrawPath's decision, Path.Dash) and through the Coq model and spec; distinct by (path, offset, dash array); non-trivial: the model makes at least one cut (K1 class 3) or the specification prescribes at least two pieces on some subpath (K2)",
-        k1_cases=nk1, k2_cases=nk2, k2_subpaths=nsub, k3_curved_cases=nk3, k3_curved_pieces_certified=nk3pieces,
+        k1_cases=nk1, k2_cases=nk2, k2_subpaths=nsub, k3_curved_cases=nk3, k3_curved_pieces_certified=nk3pieces, known_finding_cases=nknown,
         traces_validated_against_impl=len(cases), disagreements_checked=len(prop_fail) + len(tie_fail),
         k1_classes={"identity": classes.get(0, 0), "nothing": classes.get(1, 0), "first-element-covers": classes.get(2, 0), "cuts": classes.get(3, 0), "fuel": classes.get(9, 0)},
         k2_closed_subpaths_joined=classes.get("k2-joined", 0),
@@ -141,5 +161,5 @@ def run(ctx):
     )
     return ctx.finish("proof", cov, [
         "dash arrays, offsets and coordinates on the 1/4 mm grid (coarser than Epsilon) so that every Epsilon comparison in the Go code is decided as in the exact model",
-        "curved segments: K3 covers one open quadratic / convex cubic Bezier per case (certified sub-curves; piece lengths vs pattern within enclosure +-1 % of the path length: checked, not proved); arcs, cusps/loops/inflections (C09 known finding) and mixed curved paths are not covered",
+        "curved segments: K3 covers one open quadratic / convex cubic Bezier per case (certified sub-curves; every cut's arc-length position vs the pattern within enclosure +-1 % of the path length: checked, not proved); arcs, cusps/loops/inflections (C09 known finding) and mixed curved paths are not covered",
         "K2 slack 2^-30 mm on point positions (float rounding of Interpolate/Length)"])
